@@ -21,6 +21,7 @@ import Mathlib.LinearAlgebra.Matrix.PosDef
 import Mathlib.Analysis.SpecialFunctions.Exp
 import Mathlib.Algebra.Order.Star.Real
 import SharkVerif.Lemmas.ES
+import SharkVerif.Lemmas.CMACov
 namespace SharkVerif.C11
 open SharkVerif.Opt SharkVerif.Opt.CMA SharkVerif.Opt.ES
 
@@ -1378,5 +1379,341 @@ def k1 : EcmaConsts Rat := { pTarget := 2/11, dStep := 3/2, cP := 1/12, cPath :=
 def s1 : Ecma Rat := { sigma := 1, pSucc := 2/11, path := [0], L := [[1]], anc := [4, 4, 4, 4, 4], bestPoint := [2], bestValue := 4, x := [2] }
 example : (ecmaStep unitFns k1 s1 [-1] 1 1 1).isSome = true := by decide +kernel
 example : ValidFactor 1 s1.L := ⟨rfl, by simp [s1], by intro k hk; simp [s1] at hk; subst hk; simp [Vec.get, s1]⟩
+
+open SharkVerif.CMACov
+
+/-! ## covariance of the modelled `CMA::updatePopulation`: symmetric positive (semi)definite after every step, end to end
+
+On the list-based matrices the executable model (and the native driver) computes with (`Lemmas/CMACov.lean`). -/
+section covpd
+
+/-- `hSig` of `CMA.update` -/
+def updHSig (F : Fns Rat) (c : Coeffs Rat) (n : Nat) (d : CMA.Dist Rat) : Rat :=
+  let one : Rat := Scalar.one
+  let two : Rat := Scalar.two
+  let counter := d.counter + 1
+  let chi := expectedChi F n
+  let hl := norm2 F d.ps / F.sqrt (one - F.pow (one - c.cSigma) (two * (ofNat counter + one)))
+  let hr := (Scalar.ofRat (14/10) + two / (ofNat n + one)) * chi
+  if hl < hr then one else Scalar.zero
+
+/-- `deltaHSig` of `CMA.update` -/
+def updDelta (F : Fns Rat) (c : Coeffs Rat) (n : Nat) (d : CMA.Dist Rat) : Rat :=
+  (Scalar.one - updHSig F c n d * updHSig F c n d) * c.cC * (Scalar.two - c.cC)
+
+/-- the new evolution path `p_c` of `CMA.update` -/
+def updPc (F : Fns Rat) (c : Coeffs Rat) (n : Nat) (d : CMA.Dist Rat) (sel : List (Indiv Rat)) : Vec Rat :=
+  let m := wsum n c.weights (sel.map (·.point))
+  let y := (Vec.sub m d.mean).map (· / d.sigma)
+  let k := updHSig F c n d * F.sqrt (c.cC * (Scalar.two - c.cC) * c.muEff)
+  List.zipWith (fun p yi => (Scalar.one - c.cC) * p + k * yi) d.pc y
+
+/-- the covariance written by the modelled `updatePopulation` IS eq. (43) applied to the old covariance, the new path
+and the rank-μ matrix of the selected points (definitional unfolding of `CMA.update`) -/
+theorem update_C (F : Fns Rat) (c : Coeffs Rat) (n : Nat) (d : CMA.Dist Rat) (sel : List (Indiv Rat)) (B : Mat Rat) :
+    (update F c n d sel B).C = covUpdate c (updDelta F c n d) d.sigma d.C (updPc F c n d sel)
+      (rankMu n c.weights (sel.map (·.point)) d.mean) := rfl
+
+theorem update_pc (F : Fns Rat) (c : Coeffs Rat) (n : Nat) (d : CMA.Dist Rat) (sel : List (Indiv Rat)) (B : Mat Rat) :
+    (update F c n d sel B).pc = updPc F c n d sel := rfl
+
+theorem update_mean (F : Fns Rat) (c : Coeffs Rat) (n : Nat) (d : CMA.Dist Rat) (sel : List (Indiv Rat)) (B : Mat Rat) :
+    (update F c n d sel B).mean = wsum n c.weights (sel.map (·.point)) := rfl
+
+theorem updHSig_cases (F : Fns Rat) (c : Coeffs Rat) (n : Nat) (d : CMA.Dist Rat) :
+    updHSig F c n d = 1 ∨ updHSig F c n d = 0 := by
+  unfold updHSig
+  dsimp only
+  split
+  · left; rfl
+  · right; rfl
+
+theorem updDelta_nonneg (F : Fns Rat) (c : Coeffs Rat) (n : Nat) (d : CMA.Dist Rat) (hcC : 0 < c.cC ∧ c.cC ≤ 1) :
+    0 ≤ updDelta F c n d := by
+  unfold updDelta
+  simp only [sone_rat, stwo_rat]
+  have : 0 ≤ c.cC * (2 - c.cC) := mul_nonneg hcC.1.le (by linarith [hcC.2])
+  rcases updHSig_cases F c n d with h | h <;> rw [h] <;> nlinarith
+
+theorem wsum_length (n : Nat) (w : Vec Rat) (vs : List (Vec Rat)) (h : ∀ v ∈ vs, v.length = n) :
+    (wsum n w vs).length = n := by
+  unfold wsum
+  have hl : ∀ wv ∈ List.zip w vs, wv.2.length = n := fun wv hm => h _ (List.of_mem_zip hm).2
+  generalize List.zip w vs = l at hl
+  have h0 : (Vec.zeros n : Vec Rat).length = n := by simp [Vec.zeros]
+  generalize (Vec.zeros n : Vec Rat) = acc at h0
+  induction l generalizing acc with
+  | nil => exact h0
+  | cons a l ih =>
+    simp only [List.foldl_cons]
+    refine ih (fun wv hm => hl wv (by simp [hm])) _ ?_
+    simp [Vec.axpy, h0, hl a (by simp)]
+
+theorem updPc_length (F : Fns Rat) (c : Coeffs Rat) (n : Nat) (d : CMA.Dist Rat) (sel : List (Indiv Rat))
+    (hpc : d.pc.length = n) (hmean : d.mean.length = n) (hsel : ∀ i ∈ sel, i.point.length = n) :
+    (updPc F c n d sel).length = n := by
+  have hm : (wsum n c.weights (sel.map (·.point))).length = n :=
+    wsum_length n _ _ (by intro v hv; obtain ⟨i, hi, rfl⟩ := List.mem_map.mp hv; exact hsel i hi)
+  unfold updPc
+  simp [Vec.sub, hm, hmean, hpc]
+
+/-- the part of `Coeffs` the covariance theorem needs (what `doInit_admissible` proves of `CMA::doInit`) -/
+def CovAdmissible (c : Coeffs Rat) : Prop :=
+  (∀ x ∈ c.weights, 0 ≤ x) ∧ 0 ≤ c.c1 ∧ 0 ≤ c.cMu ∧ 0 ≤ 1 - c.c1 - c.cMu ∧ (0 < c.cC ∧ c.cC ≤ 1)
+
+/-- **cma_update_cov_psd.**  One modelled `CMA::updatePopulation` with admissible coefficients keeps the covariance
+symmetric positive SEMIdefinite — for every dimension, every selection, every step size (even 0), every `hSig`. -/
+theorem cma_update_cov_psd (F : Fns Rat) (c : Coeffs Rat) (hc : CovAdmissible c) (n : Nat) (d : CMA.Dist Rat)
+    (sel : List (Indiv Rat)) (B : Mat Rat) (hC : PSD n d.C) (hpc : d.pc.length = n) (hmean : d.mean.length = n)
+    (hsel : ∀ i ∈ sel, i.point.length = n) : PSD n (update F c n d sel B).C := by
+  obtain ⟨hw, hc1, hcmu, ha, hcC⟩ := hc
+  rw [update_C]
+  have hδ := updDelta_nonneg F c n d hcC
+  refine covUpdate_psd n c _ _ _ _ _ hC ?_ (updPc_length F c n d sel hpc hmean hsel) ?_ hc1 hcmu
+  · exact rankMu_psd n _ _ _ hw (by intro v hv; obtain ⟨i, hi, rfl⟩ := List.mem_map.mp hv; exact hsel i hi) hmean
+  · have := mul_nonneg hc1 hδ; linarith
+
+/-- **cma_update_cov_pd_partial.**  … and symmetric positive DEFINITE, provided the old covariance keeps a positive
+weight `1 − c₁ − c_μ > 0`.  `_partial`: `CMA::doInit` caps `c_μ` at `1 − c₁`, and the cap is reached for populations
+large relative to the dimension (`cma_cmu_cap_reached`: n = 1, μ = 10, equal weights); there the weight is 0 and the
+theorem is FALSE: `cma_cov_collapse_witness` — this is finding F17 on the real code. -/
+theorem cma_update_cov_pd_partial (F : Fns Rat) (c : Coeffs Rat) (hc : CovAdmissible c) (hfloor : 0 < 1 - c.c1 - c.cMu)
+    (n : Nat) (d : CMA.Dist Rat) (sel : List (Indiv Rat)) (B : Mat Rat) (hC : PD n d.C) (hpc : d.pc.length = n)
+    (hmean : d.mean.length = n) (hsel : ∀ i ∈ sel, i.point.length = n) : PD n (update F c n d sel B).C := by
+  obtain ⟨hw, hc1, hcmu, _, hcC⟩ := hc
+  rw [update_C]
+  have hδ := updDelta_nonneg F c n d hcC
+  refine covUpdate_pd n c _ _ _ _ _ hC ?_ (updPc_length F c n d sel hpc hmean hsel) ?_ hc1 hcmu
+  · exact rankMu_psd n _ _ _ hw (by intro v hv; obtain ⟨i, hi, rfl⟩ := List.mem_map.mp hv; exact hsel i hi) hmean
+  · have := mul_nonneg hc1 hδ; linarith
+
+/-- the coefficients computed by the modelled `CMA::doInit` (regenerated formulas) are admissible for the covariance
+theorem: every `n ≥ 1`, every `μ ≥ 1` (every admissible user-set `λ > μ`), every recombination type -/
+theorem doInit_covAdmissible (F : Fns Rat) (hlog : LogMono F) (n mu recomb : Nat) (hn : 1 ≤ n) (hmu : 1 ≤ mu) :
+    CovAdmissible (doInitCoeffs F n mu recomb) := by
+  obtain ⟨⟨_, hw, _, _⟩, _, hc1, hcmu, _, hcC, _⟩ := doInit_admissible F hlog n mu recomb hn hmu
+  exact ⟨fun x hx => (hw x hx).le, hc1.1.le, hcmu.1.le, hcmu.2.2, hcC⟩
+
+/-- the invariant of a run: covariance SPD (resp. SPSD), path and mean of the right length -/
+def DistPD (n : Nat) (d : CMA.Dist Rat) : Prop := PD n d.C ∧ d.pc.length = n ∧ d.mean.length = n
+def DistPSD (n : Nat) (d : CMA.Dist Rat) : Prop := PSD n d.C ∧ d.pc.length = n ∧ d.mean.length = n
+
+/-- the sampler returns search points of dimension `n` -/
+def SamplesOK (n : Nat) (W : World Rat) : Prop := ∀ d t, ∀ pz ∈ W.sample d t, pz.1.length = n
+
+theorem finish_dist (F : Fns Rat) (W : World Rat) (c : Coeffs Rat) (n : Nat) (s : State Rat) (sel : List (Indiv Rat)) :
+    (finish F W c n s sel).dist.C = (update F c n s.dist sel (W.eigVec s.dist.C)).C ∧
+    (finish F W c n s sel).dist.pc = (update F c n s.dist sel (W.eigVec s.dist.C)).pc ∧
+    (finish F W c n s sel).dist.mean = (update F c n s.dist sel (W.eigVec s.dist.C)).mean := by
+  unfold finish
+  cases sel <;> exact ⟨rfl, rfl, rfl⟩
+
+theorem selected_shape (W : World Rat) (hW : SamplesOK n W) (fit : Vec Rat → Rat) (s : State Rat) (mu : Nat) :
+    ∀ i ∈ select (offspring W fit s) mu, i.point.length = n := by
+  intro i hi
+  unfold select at hi
+  have := List.mem_of_mem_take hi
+  rw [List.mem_mergeSort] at this
+  unfold offspring at this
+  obtain ⟨pz, hpz, rfl⟩ := List.mem_map.mp this
+  exact hW _ _ pz hpz
+
+theorem step_distPSD (F : Fns Rat) (W : World Rat) (c : Coeffs Rat) (hc : CovAdmissible c) (n mu : Nat)
+    (hW : SamplesOK n W) (fit : Vec Rat → Rat) (s : State Rat) (h : DistPSD n s.dist) :
+    DistPSD n (step F W c n mu fit s).dist := by
+  unfold step
+  obtain ⟨e1, e2, e3⟩ := finish_dist F W c n s (select (offspring W fit s) mu)
+  have hsel := selected_shape W hW fit s mu
+  unfold DistPSD
+  rw [e1, e2, e3, update_pc, update_mean]
+  refine ⟨cma_update_cov_psd F c hc n _ _ _ h.1 h.2.1 h.2.2 hsel, updPc_length F c n _ _ h.2.1 h.2.2 hsel, ?_⟩
+  exact wsum_length n _ _ (by intro v hv; obtain ⟨i, hi, rfl⟩ := List.mem_map.mp hv; exact hsel i hi)
+
+theorem step_distPD (F : Fns Rat) (W : World Rat) (c : Coeffs Rat) (hc : CovAdmissible c) (hfloor : 0 < 1 - c.c1 - c.cMu)
+    (n mu : Nat) (hW : SamplesOK n W) (fit : Vec Rat → Rat) (s : State Rat) (h : DistPD n s.dist) :
+    DistPD n (step F W c n mu fit s).dist := by
+  unfold step
+  obtain ⟨e1, e2, e3⟩ := finish_dist F W c n s (select (offspring W fit s) mu)
+  have hsel := selected_shape W hW fit s mu
+  unfold DistPD
+  rw [e1, e2, e3, update_pc, update_mean]
+  refine ⟨cma_update_cov_pd_partial F c hc hfloor n _ _ _ h.1 h.2.1 h.2.2 hsel, updPc_length F c n _ _ h.2.1 h.2.2 hsel, ?_⟩
+  exact wsum_length n _ _ (by intro v hv; obtain ⟨i, hi, rfl⟩ := List.mem_map.mp hv; exact hsel i hi)
+
+/-- **cma_run_cov_psd** (end to end).  Whole modelled CMA-ES runs with the coefficients of the modelled `doInit`
+(regenerated formulas): for every dimension `n ≥ 1`, every `μ ≥ 1`, every recombination type, every objective, every
+variate stream (sampler of `n`-dimensional points), every eigendecomposition, every lower bound, after every number of
+generations the covariance matrix is symmetric positive semidefinite. -/
+theorem cma_run_cov_psd (F : Fns Rat) (hlog : LogMono F) (W : World Rat) (n mu recomb : Nat) (hn : 1 ≤ n) (hmu : 1 ≤ mu)
+    (hW : SamplesOK n W) (fit : Vec Rat → Rat) (s : State Rat) (h : DistPSD n s.dist) (t : Nat) :
+    DistPSD n (run F W (doInitCoeffs F n mu recomb) n mu fit s t).dist := by
+  induction t with
+  | zero => exact h
+  | succ t ih => exact step_distPSD F W _ (doInit_covAdmissible F hlog n mu recomb hn hmu) n mu hW fit _ ih
+
+/-- **cma_run_cov_pd_partial** (end to end).  … and symmetric positive definite after every generation, as long as the
+`c_μ` of `doInit` stays below its cap `1 − c₁`. -/
+theorem cma_run_cov_pd_partial (F : Fns Rat) (hlog : LogMono F) (W : World Rat) (n mu recomb : Nat) (hn : 1 ≤ n) (hmu : 1 ≤ mu)
+    (hfloor : 0 < 1 - (doInitCoeffs F n mu recomb).c1 - (doInitCoeffs F n mu recomb).cMu)
+    (hW : SamplesOK n W) (fit : Vec Rat → Rat) (s : State Rat) (h : DistPD n s.dist) (t : Nat) :
+    DistPD n (run F W (doInitCoeffs F n mu recomb) n mu fit s t).dist := by
+  induction t with
+  | zero => exact h
+  | succ t ih => exact step_distPD F W _ (doInit_covAdmissible F hlog n mu recomb hn hmu) hfloor n mu hW fit _ ih
+
+/-- the identity matrix `CMA::doInit` starts from is symmetric positive definite (non-vacuity of `DistPD`, n = 2) -/
+example : PD 2 [[1, 0], [0, 1]] := by
+  refine ⟨⟨rfl, by simp⟩, ?_, ?_⟩
+  · intro i j hi hj
+    have : i = 0 ∨ i = 1 := by omega
+    have : j = 0 ∨ j = 1 := by omega
+    rcases ‹i = 0 ∨ i = 1› with rfl | rfl <;> rcases ‹j = 0 ∨ j = 1› with rfl | rfl <;> rfl
+  · intro x ⟨k, hk, hx⟩
+    have e : qf 2 [[1, 0], [0, 1]] x = x 0 * x 0 + x 1 * x 1 := by
+      simp [qf, qfE, ent, Finset.sum_range_succ]
+    rw [e]
+    have : k = 0 ∨ k = 1 := by omega
+    rcases this with rfl | rfl
+    · have := mul_self_pos.mpr hx; nlinarith [mul_self_nonneg (x 1)]
+    · have := mul_self_pos.mpr hx; nlinarith [mul_self_nonneg (x 0)]
+
+/-- the hypothesis of the `_partial` theorems does exclude configurations the real code accepts: for `n = 1`, `μ = 10`
+(any `λ ≥ 11`), equal weights, `doInit` caps `c_μ` at `1 − c₁` -/
+theorem cma_cmu_cap_reached : (doInitCoeffs idFns 1 10 0).cMu = 1 - (doInitCoeffs idFns 1 10 0).c1 := by decide +kernel
+
+/-- and it is not a default configuration: with the default `μ = 2` of dimension 1 (λ = 5, superlinear) the floor holds -/
+example : 0 < 1 - (doInitCoeffs idFns 1 2 0).c1 - (doInitCoeffs idFns 1 2 0).cMu := by decide +kernel
+
+/-- **F17 as mathematics** (`cma_cov_collapse_witness`): with the old-covariance weight 0 (`c_μ = 1 − c₁`), a generation in
+which every selected offspring equals the mean (exact convergence: rank-μ matrix 0, path 0) replaces the identity by the
+ZERO matrix, which is not positive definite. -/
+def capCoeffs : Coeffs Rat := { weights := [1], muEff := 1, cSigma := 1/2, dSigma := 1, cC := 1/2, c1 := 1/4, cMu := 3/4 }
+def convergedDist : CMA.Dist Rat := { sigma := 1, mean := [0], pc := [0], ps := [0], C := [[1]], counter := 0 }
+theorem cma_cov_collapse_witness :
+    CovAdmissible capCoeffs ∧ (update unitFns capCoeffs 1 convergedDist [⟨[0], [0], 0⟩] [[1]]).C = [[0]] ∧ ¬ PD 1 [[0]] := by
+  refine ⟨⟨by decide +kernel, by decide +kernel, by decide +kernel, by decide +kernel, by decide +kernel⟩, by decide +kernel, ?_⟩
+  intro h
+  have := h.2.2 (fun _ => 1) ⟨0, by norm_num, by norm_num⟩
+  simp [qf, qfE, ent] at this
+
+end covpd
+
+/-! ## VD-CMA: the restricted covariance `D (I + v vᵀ) D` -/
+
+/-- **vd_cov_pd.**  The covariance VD-CMA samples from, `σ² D (I + v vᵀ) D`, is symmetric positive definite for every
+dimension, every vector `v` and every diagonal `D` without zero entry — in particular after `vdUpdate`, whose new `D` is
+`Dᵢ(1 + sᵢ)` (`vd_D_update`): no zero entry appears as long as no `sᵢ` equals −1.  (That `sᵢ ≠ −1` is not implied by
+the formulas; the per-step oracle on the real VD-CMA checks `D` for zeros.) -/
+theorem vd_cov_pd (n : Nat) (D v : Vec Rat) (hD : ∀ i, i < n → D.getD i 0 ≠ 0) :
+    SymmE n (vdEnt D v) ∧ ∀ x, NonZero n x → 0 < qfE n (vdEnt D v) x := vdCov_pd n D v hD
+
+/-- a zero entry of `D` is exactly what makes it singular -/
+theorem vd_cov_singular_of_zero (n : Nat) (D v : Vec Rat) (k : Nat) (hk : k < n) (h0 : D.getD k 0 = 0) :
+    ¬ ∀ x, NonZero n x → 0 < qfE n (vdEnt D v) x := by
+  intro h
+  have := h (fun i => if i = k then 1 else 0) ⟨k, hk, by simp⟩
+  rw [vdCov_singular_of_zero n D v k hk h0] at this
+  exact lt_irrefl _ this
+
+example : ∀ x, NonZero 2 x → 0 < qfE 2 (vdEnt [2, -1] [3, 5]) x :=
+  (vd_cov_pd 2 [2, -1] [3, 5] (by intro i hi; have : i = 0 ∨ i = 1 := by omega
+                                  rcases this with rfl | rfl <;> norm_num)).2
+
+/-! ## constraint handling: `PenalizingEvaluator` -/
+section penal
+
+theorem project_spec (K : Constraint Rat) (f : Vec Rat → Rat) (x : Vec Rat) :
+    unpenalized K f x = if K.feasible x then f x else f (K.closest x) := by
+  unfold unpenalized project; split <;> rfl
+
+/-- **cma_value_is_f_closest_feasible.**  Whole CMA-ES runs on an objective with a feasibility predicate, evaluated as
+`PenalizingEvaluator` does (`unpenalizedFitness = f(closest feasible point)`, which is what `FitnessOrdering` ranks by and
+what `m_best.value` reports): after every number of generations the reported value is `f` at the reported point if that is
+feasible, and `f` at its closest feasible point otherwise. -/
+theorem cma_value_is_f_closest_feasible (F : Fns Rat) (W : World Rat) (c : Coeffs Rat) (n mu : Nat) (K : Constraint Rat)
+    (f : Vec Rat → Rat) (s : State Rat) (h : s.bestValue = f (project K s.bestPoint)) (t : Nat) :
+    (run F W c n mu (unpenalized K f) s t).bestValue =
+      if K.feasible (run F W c n mu (unpenalized K f) s t).bestPoint then f (run F W c n mu (unpenalized K f) s t).bestPoint
+      else f (K.closest (run F W c n mu (unpenalized K f) s t).bestPoint) := by
+  rw [reported_value_is_f_run F W c n mu (unpenalized K f) s h t]
+  exact project_spec K f _
+
+/-- the same for every comparison-based strategy of `Model/ES.lean` (CMSA, VD-CMA, cross-entropy method) -/
+theorem generic_value_is_f_closest_feasible {σ ι : Type} (S : Strategy σ ι Rat) (K : Constraint Rat) (f : Vec Rat → Rat)
+    (s : GState σ Rat) (h : s.bestValue = f (project K s.bestPoint)) (t : Nat) :
+    (grun S (unpenalized K f) s t).bestValue =
+      if K.feasible (grun S (unpenalized K f) s t).bestPoint then f (grun S (unpenalized K f) s t).bestPoint
+      else f (K.closest (grun S (unpenalized K f) s t).bestPoint) := by
+  rw [generic_value_is_f S (unpenalized K f) s h t]
+  exact project_spec K f _
+
+theorem normSqr_sub_self (x : Vec Rat) : Vec.normSqr (Vec.sub x x) = 0 := by
+  unfold Vec.normSqr Vec.dot Vec.sub
+  have : ∀ (l : List Rat) (a : Rat), (List.zipWith (· * ·) (List.zipWith (· - ·) l l) (List.zipWith (· - ·) l l)).foldl (· + ·) a = a := by
+    intro l
+    induction l with
+    | nil => intro a; rfl
+    | cons b l ih => intro a; simp only [List.zipWith_cons_cons, List.foldl_cons]; rw [sub_self, mul_zero, add_zero]; exact ih a
+  exact this x _
+
+theorem normSqr_nonneg (x : Vec Rat) : 0 ≤ Vec.normSqr x := by
+  unfold Vec.normSqr Vec.dot
+  have : ∀ (l : List Rat) (a : Rat), 0 ≤ a → 0 ≤ (List.zipWith (· * ·) l l).foldl (· + ·) a := by
+    intro l
+    induction l with
+    | nil => intro a ha; exact ha
+    | cons b l ih => intro a ha; simp only [List.zipWith_cons_cons, List.foldl_cons]; exact ih _ (by nlinarith [mul_self_nonneg b])
+  exact this x _ (le_refl _)
+
+/-- **penalized_feasible / penalized_ge**: a feasible point is not penalized (so on unconstrained objectives, and inside the
+feasible region, ranking by either fitness is the same), and an infeasible one is never better than its projection
+(penalty factor ≥ 0; `PenalizingEvaluator` uses 1e-6, `ElitistCMA::constrainedPenaltyFactor()` is user-set). -/
+theorem penalized_feasible (K : Constraint Rat) (f : Vec Rat → Rat) (factor : Rat) (x : Vec Rat) (hx : K.feasible x = true) :
+    penalized K f factor x = unpenalized K f x ∧ unpenalized K f x = f x := by
+  unfold penalized unpenalized project
+  simp only [hx, if_true, normSqr_sub_self, mul_zero, add_zero, and_self]
+
+theorem penalized_ge (K : Constraint Rat) (f : Vec Rat → Rat) (factor : Rat) (hf : 0 ≤ factor) (x : Vec Rat) :
+    unpenalized K f x ≤ penalized K f factor x := by
+  unfold penalized unpenalized
+  have := mul_nonneg hf (normSqr_nonneg (Vec.sub (project K x) x))
+  simp only; linarith
+
+/-- **ecma_value_is_f_closest_feasible.**  `ElitistCMA::step` with the offspring evaluated by `PenalizingEvaluator`
+(acceptance on the penalized fitness `fp`, report of the unpenalized one): the reported value stays `f` at the closest
+feasible point of the reported point, through all three outcomes of the success rule and both `activeUpdate` settings. -/
+theorem ecma_value_is_f_closest_feasible (F : Fns Rat) (k : EcmaConsts Rat) (K : Constraint Rat) (f : Vec Rat → Rat) (factor : Rat)
+    (s s' : Ecma Rat) (y : Vec Rat) (zz : Rat)
+    (hinv : s.bestValue = unpenalized K f s.bestPoint)
+    (h : ecmaStep F k s y zz (penalized K f factor (List.zipWith (fun xi yi => xi + s.sigma * yi) s.x y))
+            (unpenalized K f (List.zipWith (fun xi yi => xi + s.sigma * yi) s.x y)) = some s') :
+    s'.bestValue = unpenalized K f s'.bestPoint := by
+  unfold ecmaStep at h
+  simp only at h
+  split at h
+  · simp only [Option.map_eq_some_iff] at h
+    obtain ⟨u, _, rfl⟩ := h
+    rfl
+  · next succ hne =>
+    simp only [Option.map_eq_some_iff] at h
+    obtain ⟨u, hu, rfl⟩ := h
+    obtain ⟨_, _, _, hv, hp⟩ := updateAsParent_sigma F k s u _ zz y hne hu
+    show u.bestValue = unpenalized K f u.bestPoint
+    rw [hv, hp]; exact hinv
+
+end penal
+
+/-! ## determinism: a modelled run is a function of (variate stream, objective) -/
+
+/-- the generic strategies (CMSA, VD-CMA, CEM instances of `Strategy`): equal sampler/update, equal objective values on
+the sampled points ⇒ equal runs.  Stronger than congruence: only the values of the objective AT THE VISITED POINTS matter. -/
+theorem generic_deterministic {σ ι : Type} (S : Strategy σ ι Rat) (fit fit' : Vec Rat → Rat) (s : GState σ Rat)
+    (hf : ∀ p, fit p = fit' p) (t : Nat) : grun S fit s t = grun S fit' s t := by
+  have : fit = fit' := funext hf
+  rw [this]
+
+/-- ElitistCMA: the run is a function of the input stream (steps and the two fitness values of each offspring) -/
+theorem ecma_deterministic (F : Fns Rat) (k : EcmaConsts Rat) (s : Ecma Rat) (i i' : List (EcmaInput Rat)) (h : i = i') :
+    ecmaRun F k s i = ecmaRun F k s i' := by rw [h]
 
 end SharkVerif.C11
